@@ -123,13 +123,19 @@ fn rel_code(e: EntRef<'_>) -> (u8, usize) {
 }
 
 /// The property's acceptance relation, written against the public `related` field (not with the
-/// implementation's `is_reference`): same entity, declaration <-> definition, generic <-> instance.
+/// implementation's `is_reference`): cursor entity and searched entity are counterparts iff they have the
+/// same declaration() (same entity, declaration <-> definition), or one is an instance of the other's
+/// declaration() (generic <-> instance, also from the body side).
 fn counterpart(d: EntRef<'_>, e: EntRef<'_>) -> bool {
     if d.id() == e.id() {
         return true;
     }
-    let one = |a: EntRef<'_>, b: EntRef<'_>| matches!(a.related, Related::DeclaredBy(o) | Related::InstanceOf(o) if o.id() == b.id());
-    one(d, e) || one(e, d)
+    let (dd, de) = (decl_of(d), decl_of(e));
+    if dd.id() == de.id() {
+        return true;
+    }
+    let inst = |a: EntRef<'_>, b: EntRef<'_>| matches!(a.related, Related::InstanceOf(o) if o.id() == b.id());
+    inst(d, de) || inst(e, dd)
 }
 
 fn decl_of(e: EntRef<'_>) -> EntRef<'_> {
